@@ -701,10 +701,71 @@ Proof.
   intro k. assert (zero_ns < now k); [|lia]. induction k as [|k IH]; [exact H0 | specialize (Hc k); lia].
 Qed.
 
+(* ------------------------------------------------------------------ Limit, Distinct, OrderSensitiveTransform *)
+Lemma limit_go_prefix n : forall inp i, exists rest, inp = Operators.limit_go n i inp ++ rest.
+Proof.
+  induction inp as [|e tl IH]; intro i; [exists []; reflexivity|]. destruct e as [r|w]; cbn [Operators.limit_go].
+  - destruct (i + 1 =? n); [exists tl; reflexivity|]. destruct (IH (i + 1)) as [rest H]. exists rest. cbn [app]. rewrite <- H. reflexivity.
+  - destruct (IH i) as [rest H]. exists rest. cbn [app]. rewrite <- H. reflexivity.
+Qed.
+Lemma run_limit_prefix n inp : exists rest, inp = Operators.run_limit n inp ++ rest.
+Proof. unfold Operators.run_limit. destruct (n =? 0); [exists inp; reflexivity | apply limit_go_prefix]. Qed.
+
+Lemma well_timed_prefix a b lo : well_timed_from lo (a ++ b) = true -> well_timed_from lo a = true.
+Proof. rewrite well_timed_app. intro H. apply andb_true_iff in H. tauto. Qed.
+Lemma monotone_prefix a b lo : monotone_opt lo (a ++ b) = true -> monotone_opt lo a = true.
+Proof.
+  revert lo. induction a as [|e tl IH]; intros lo H; [reflexivity|]. destruct e as [r|w]; cbn [app monotone_opt] in *.
+  - apply IH. exact H.
+  - apply andb_true_iff in H. destruct H as [H1 H2]. rewrite H1. apply IH. exact H2.
+Qed.
+
+(* a stream without watermarks is well timed whatever its records are *)
+Lemma no_watermarks_well_timed es : watermarks es = [] -> well_timed es = true /\ monotone es = true.
+Proof.
+  unfold well_timed, monotone. induction es as [|e tl IH]; intro H; [split; reflexivity|]. destruct e as [r|w].
+  - cbn [watermarks flat_map app] in H. destruct (IH H) as [A B]. cbn [well_timed_from monotone_opt]. rewrite A.
+    split; [|exact B]. unfold not_late. rewrite orb_true_r. reflexivity.
+  - cbn [watermarks flat_map app] in H. discriminate.
+Qed.
+
+Lemma distinct_from_no_watermarks : forall inp st, watermarks (Operators.distinct_from st inp) = [].
+Proof.
+  induction inp as [|e tl IH]; intro st; [reflexivity|]. destruct e as [r|w]; cbn [Operators.distinct_from]; [|apply IH].
+  destruct (Operators.distinct_step st r) as [st' out] eqn:E. rewrite watermarks_app, IH, app_nil_r.
+  unfold Operators.distinct_step in E.
+  destruct (0 <? (if retr r then _ else _)); [destruct (negb (retr r) && _)|]; inversion E; reflexivity.
+Qed.
+Lemma distinct_from_records : forall inp st r, In r (records (Operators.distinct_from st inp)) -> In r (records inp).
+Proof.
+  induction inp as [|e tl IH]; intros st r H; [exact H|]. destruct e as [x|w]; cbn [Operators.distinct_from] in H.
+  - destruct (Operators.distinct_step st x) as [st' out] eqn:E. rewrite records_app in H. apply in_app_or in H.
+    cbn [records flat_map app In]. fold (records tl). destruct H as [H|H]; [|right; exact (IH st' r H)].
+    unfold Operators.distinct_step in E.
+    destruct (0 <? (if retr x then _ else _)); [destruct (negb (retr x) && _)|]; inversion E; subst out; cbn in H;
+      try contradiction; destruct H as [H|[]]; left; exact H.
+  - cbn [records flat_map app]. exact (IH st r H).
+Qed.
+
+Lemma run_ost_shape ks limit noretr inp out :
+  Operators.run_ost ks limit noretr inp = Ok out ->
+  watermarks out = [] /\ Forall (fun r => et r = zero_ns /\ retr r = false) (records out).
+Proof.
+  unfold Operators.run_ost, Operators.run_ost_gen. intro H.
+  assert (G : forall rows, watermarks (map (fun x => Rec (Operators.ins x)) rows) = [] /\
+                           Forall (fun r => et r = zero_ns /\ retr r = false) (records (map (fun x => Rec (Operators.ins x)) rows))).
+  { induction rows as [|x xs [A B]]; [split; [reflexivity|constructor]|]. split; [exact A|].
+    cbn [map records flat_map app]. constructor; [split; reflexivity | exact B]. }
+  destruct limit as [n|].
+  - destruct (n =? 0); [inversion H; split; [reflexivity|constructor]|]. destruct (n <? 0); [discriminate|].
+    inversion H. apply G.
+  - inversion H. apply G.
+Qed.
+
 (* ------------------------------------------------------------------ nodes and pipelines *)
 Lemma run_node_wt n inp out : run_node n inp = Ok out -> well_timed inp = true -> well_timed out = true.
 Proof.
-  destruct n as [|idx|idxs|idx|len off idx|md res idx]; cbn [run_node]; intros H Hwt.
+  destruct n as [|idx|idxs|idx|len off idx|md res idx|n| |ks limit noretr]; cbn [run_node]; intros H Hwt.
   - inversion H; subst. apply buffer_well_timed. exact Hwt.
   - exact (per_record_wt _ (filter_keeps idx) inp None out H Hwt).
   - exact (per_record_wt _ (map_keeps idxs) inp None out H Hwt).
@@ -712,11 +773,15 @@ Proof.
   - unfold tumble_run in H. destruct (len <=? 0); [discriminate|]. rewrite tumble_loop_per_record in H.
     exact (per_record_wt _ (tumble_keeps len off idx) inp None out H Hwt).
   - exact (mdw_run_wt md res idx inp out H).
+  - inversion H; subst. destruct (run_limit_prefix n inp) as [rest E]. unfold well_timed in *. rewrite E in Hwt.
+    exact (well_timed_prefix _ _ _ Hwt).
+  - inversion H; subst. apply no_watermarks_well_timed. apply distinct_from_no_watermarks.
+  - apply no_watermarks_well_timed. exact (proj1 (run_ost_shape _ _ _ _ _ H)).
 Qed.
 
 Lemma run_node_monotone n inp out : run_node n inp = Ok out -> monotone inp = true -> monotone out = true.
 Proof.
-  unfold monotone. destruct n as [|idx|idxs|idx|len off idx|md res idx]; cbn [run_node]; intros H Hm.
+  unfold monotone. destruct n as [|idx|idxs|idx|len off idx|md res idx|n| |ks limit noretr]; cbn [run_node]; intros H Hm.
   - inversion H; subst. rewrite monotone_via_watermarks, buffer_watermarks, <- monotone_via_watermarks. exact Hm.
   - rewrite monotone_via_watermarks, (per_record_watermarks _ inp out H), <- monotone_via_watermarks. exact Hm.
   - rewrite monotone_via_watermarks, (per_record_watermarks _ inp out H), <- monotone_via_watermarks. exact Hm.
@@ -724,6 +789,9 @@ Proof.
   - unfold tumble_run in H. destruct (len <=? 0); [discriminate|]. rewrite tumble_loop_per_record in H.
     rewrite monotone_via_watermarks, (per_record_watermarks _ inp out H), <- monotone_via_watermarks. exact Hm.
   - apply wt_monotone. exact (mdw_run_wt md res idx inp out H).
+  - inversion H; subst. destruct (run_limit_prefix n inp) as [rest E]. rewrite E in Hm. exact (monotone_prefix _ _ _ Hm).
+  - inversion H; subst. apply no_watermarks_well_timed. apply distinct_from_no_watermarks.
+  - apply no_watermarks_well_timed. exact (proj1 (run_ost_shape _ _ _ _ _ H)).
 Qed.
 
 (* composition: what holds for every node holds for every pipeline of them *)
